@@ -6,7 +6,7 @@
   `IsBytes s` (every element < 256) is what a Python `bytes` object is; `bitsOf M bitlen` is the bit length a call denotes
   (`bitlen`, or 8·|M| when it is None); lengths below 2^96 bytes are the specification's own limit for UBI inputs.
 -/
-import Proofs.Lemmas.SkHash
+import Proofs.Lemmas.SkTree
 namespace Proofs.C12
 open Model Proofs.Lemmas Proofs.Lemmas.TfBytes Proofs.Lemmas.SkUbi Proofs.Lemmas.SkHash
 open Spec.Threefish (toBytes)
@@ -134,6 +134,44 @@ theorem output_length (Nb No : Nat) (key prs PK kdf non : Option (List Nat)) (M 
     ∃ out, Skein.hash Nb No 0 0 0 key prs PK kdf non M bitlen = .ok out ∧ out.length = (No + 7) / 8 :=
   ⟨_, hash_plain Nb No key prs PK kdf non M bitlen hNb hM hMl hL hk hp hP hd hn⟩
 
+/-
+  FULL STATEMENT (tree hashing, as the property quantifies: every leaf size, fan-out and maximum height the
+  specification admits, i.e. Ym up to 255):
+
+    theorem tree_refines (Nb No Yl Yf Ym …) (hNb : Nb ∈ {256,512,1024}) (1 ≤ Yl ≤ 255) (1 ≤ Yf ≤ 255) (2 ≤ Ym ≤ 255)
+        (hM : IsBytes M) (hL : bitsOf M bitlen ≤ 8·|M|) (|M| + Nb/8·2^Yl + Nb/8·2^Yf < 2^96) (OptOk key …) :
+      (Skein.hash Nb No Yl Yf Ym key prs PK kdf non M bitlen).toOption =
+        Spec.Skein.skein Nb No key prs PK kdf non Yl Yf Ym M (bitsOf M bitlen)
+
+  PROVED below with the extra hypothesis Ym ≤ 127.  What is missing for 128 ≤ Ym ≤ 255: the TreeLevel field has 7 bits and
+  the setter does not mask, so the model (like the code) is only correct while the level counter stays below 128; a tree
+  over a message shorter than 2^96 bytes never gets that high (each level at least halves the data), but that height bound
+  is not proved here.  Every parameter set of the property's grid (Ym ≤ 4) and every practical one is inside Ym ≤ 127.
+-/
+
+/-- Skein with tree parameters = the specification's tree hash (3.5.6) followed by the output function: every state size,
+    every output length, every message and bit length (the bit padding lands in the last leaf), every leaf size 2^Yl and
+    fan-out 2^Yf, every maximum height 2 ≤ Ym ≤ 127, with or without key / personalisation / public key / kdf id / nonce -/
+theorem tree_refines_partial (Nb No Yl Yf Ym : Nat) (key prs PK kdf non : Option (List Nat)) (M : List Nat) (bitlen : Option Nat)
+    (hNb : Nb = 256 ∨ Nb = 512 ∨ Nb = 1024) (h1 : 1 ≤ Yl) (h2 : 1 ≤ Yf) (h3 : 2 ≤ Ym) (hYl : Yl ≤ 255) (hYf : Yf ≤ 255) (hYm : Ym ≤ 127)
+    (hM : IsBytes M) (hL : bitsOf M bitlen ≤ 8 * M.length)
+    (hbound : M.length + Nb / 8 * 2 ^ Yl + Nb / 8 * 2 ^ Yf < 2 ^ 96)
+    (hk : OptOk key) (hp : OptOk prs) (hP : OptOk PK) (hd : OptOk kdf) (hn : OptOk non) :
+    (Skein.hash Nb No Yl Yf Ym key prs PK kdf non M bitlen).toOption =
+      Spec.Skein.skein Nb No (key.getD []) (prs.getD []) (PK.getD []) (kdf.getD []) (non.getD []) Yl Yf Ym M (bitsOf M bitlen) := by
+  rw [(SkTree.hash_tree Nb No Yl Yf Ym key prs PK kdf non M bitlen hNb h1 h2 h3 hYl hYf hYm hM hL hbound hk hp hP hd hn).1,
+      SkTree.spec_tree Nb No _ _ _ _ _ M _ Yl Yf Ym hNb h1 h2 h3 hYl hYf (by omega)]
+  rfl
+
+/-- in tree mode too the result has exactly ⌈No/8⌉ bytes -/
+theorem output_length_tree (Nb No Yl Yf Ym : Nat) (key prs PK kdf non : Option (List Nat)) (M : List Nat) (bitlen : Option Nat)
+    (hNb : Nb = 256 ∨ Nb = 512 ∨ Nb = 1024) (h1 : 1 ≤ Yl) (h2 : 1 ≤ Yf) (h3 : 2 ≤ Ym) (hYl : Yl ≤ 255) (hYf : Yf ≤ 255) (hYm : Ym ≤ 127)
+    (hM : IsBytes M) (hL : bitsOf M bitlen ≤ 8 * M.length)
+    (hbound : M.length + Nb / 8 * 2 ^ Yl + Nb / 8 * 2 ^ Yf < 2 ^ 96)
+    (hk : OptOk key) (hp : OptOk prs) (hP : OptOk PK) (hd : OptOk kdf) (hn : OptOk non) :
+    ∃ out, Skein.hash Nb No Yl Yf Ym key prs PK kdf non M bitlen = .ok out ∧ out.length = (No + 7) / 8 :=
+  ⟨_, SkTree.hash_tree Nb No Yl Yf Ym key prs PK kdf non M bitlen hNb h1 h2 h3 hYl hYf hYm hM hL hbound hk hp hP hd hn⟩
+
 /-! ### non-vacuity -/
 
 example : OptOk none ∧ OptOk (some []) ∧ OptOk (some [1, 2, 255]) := by
@@ -143,5 +181,6 @@ example : OptOk none ∧ OptOk (some []) ∧ OptOk (some [1, 2, 255]) := by
 example : Spec.Skein.ubiPre [1, 2, 3] (2 ^ 64 - 2 + Spec.Skein.Tmsg * 2 ^ 120) = true := by decide
 example : bitsOf [0xff, 0x80] (some 9) ≤ 8 * [0xff, 0x80].length := by decide
 example : (0, 96) ∈ tweakFields ∧ (126, 127) ∈ tweakFields := by decide
+example : (List.replicate 1000 7).length + 256 / 8 * 2 ^ 2 + 256 / 8 * 2 ^ 3 < 2 ^ 96 := by rw [List.length_replicate]; decide
 
 end Proofs.C12
